@@ -45,6 +45,7 @@ theorem wrapM {x : Nat} (h : x < 18446744073709551616) : wrap mulBits x = x :=
   wrap_of_lt (by norm_num [mulBits]; exact h)
 theorem wrapDM {x : Nat} (h : x < 18446744073709551616) : wrap divMulBits x = x :=
   wrap_of_lt (by norm_num [divMulBits]; exact h)
+theorem wrapDv {x : Nat} (h : x < 4294967296) : wrap divisorBits x = x := wrap_of_lt (by norm_num [divisorBits]; exact h)
 theorem wrapT {x : Nat} (h : x < 18446744073709551616) : wrap top53Bits x = x :=
   wrap_of_lt (by norm_num [top53Bits]; exact h)
 
@@ -122,7 +123,7 @@ theorem bignat_divW_eq (x : BigNat) (dv : Nat) (hdv : 0 < dv) (hle : dv ≤ bigB
     (hl : AllLt x.digits) : bignat_divW x dv = bignat_div x dv := by
   have hle' : dv ≤ 2147483648 := by rw [bb] at hle; exact hle
   have hf' : x.first < 2147483648 := by rw [bb] at hf; exact hf
-  have wd : wrap factorBits dv = dv := wrapF (by omega)
+  have wd : wrap divisorBits dv = dv := wrapDv (by omega)
   unfold bignat_divW bignat_div
   simp only
   rw [wd]
